@@ -46,7 +46,7 @@ def doc_maker(g, what, n):
 
 def shape_cfg(shape):
     # "outside": some type-bound procedures are bound to procedures of a module that is not part of the project
-    cfg = {"docs": True, "late_access": True, "outside": True, "doc_maker": doc_maker}
+    cfg = {"docs": True, "late_access": True, "outside": True, "doc_maker": doc_maker, "constructors": True}
     if shape == "one-file":
         cfg.update(max_files=1, max_units=2)
     elif shape == "program-only":
